@@ -1134,6 +1134,8 @@ $GEN{$NChain(a int)}{int}{
 $GEN{$NG(a int)}{int}{
 	for i := 0; i < 3; i++ {
 		x := i * 2
+		false := x >= 0 // (a local that shadows the predeclared false: the dead code must stay dead)
+		_ = false
 		$YIELD{i}
 		continue
 		tr.Ev(1, x)
